@@ -77,9 +77,11 @@ def check(machine, left, right, pipeline: dict) -> dict:
 
 
 def run_observed(left, right, pipeline: dict, machine=None, do_check=True, observe=True, snapshot=("disp",),
-                 keep_machine=False) -> Obs:
+                 keep_machine=False, cfg=None) -> Obs:
     """
     :param snapshot: which products to deep-copy after each step: any of "cv", "disp", "img"
+    :param cfg: a configuration the caller already holds (completed by an earlier check): used as is, neither
+                checked again nor copied - the caller's own dictionary goes to pandora.run
     """
     import pandora  # pylint: disable=import-outside-toplevel
     from pandora.state_machine import PandoraMachine  # pylint: disable=import-outside-toplevel
@@ -88,11 +90,12 @@ def run_observed(left, right, pipeline: dict, machine=None, do_check=True, obser
     m = machine if machine is not None else PandoraMachine()
     if keep_machine:
         obs.machine = m
-    try:
-        cfg = check(m, left, right, pipeline) if do_check else {"pipeline": copy.deepcopy(pipeline)}
-    except Exception as e:  # pylint: disable=broad-except
-        obs.error = ("check", e)
-        return obs
+    if cfg is None:
+        try:
+            cfg = check(m, left, right, pipeline) if do_check else {"pipeline": copy.deepcopy(pipeline)}
+        except Exception as e:  # pylint: disable=broad-except
+            obs.error = ("check", e)
+            return obs
     obs.cfg = cfg
     if observe:
         for name in set(RUN_CALLBACKS.values()):
